@@ -1530,27 +1530,50 @@ def _norm(v, ty):
     raise TypeError(ty)
 
 
+def real_object(S, ty, a):
+    """An argument object built the way users build it: a REAL instance made by the class's constructor (never a
+    duck-typed stand-in: an attribute the class sets up in __init__ must exist, and nothing the class does not have may
+    be reachable).  Field values the constructor rejects (Interval.validate) or normalises (Note upper-cases the step)
+    are assigned afterwards -- the fields are public attributes."""
+    vals = [(f, x) for (f, _), x in zip(ty.fields, a)]
+    d = dict(vals)
+    if ty.name == "PyInterval":
+        try:
+            o = S.Interval(d["number"], d["quality"], d["direction"])
+        except Exception:
+            o = S.Interval(1, "P", "up")
+    elif ty.name == "PyNote":
+        try:
+            o = S.Note(step=d["step"], octave=d["octave"], alter=d["alter"])
+        except Exception:
+            o = S.Note(step="C", octave=4, alter=None)
+    elif ty.name == "PyTuplet":
+        o = S.Tuplet(actual_notes=d["actual_notes"], normal_notes=d["normal_notes"], actual_type=d["actual_type"], normal_type=d["normal_type"])
+    elif ty.name == "PyKeySig":
+        o = S.KeySignature(d["fifths"], d["mode"])
+    else:
+        raise ValueError(ty.name)
+    for f, x in vals:
+        cur = getattr(o, f)
+        if type(cur) is not type(x) or cur != x:
+            setattr(o, f, x)
+    return o
+
+
 def run_impl(tgt, args):
-    """the REAL function on one sample -> ('ok', value of the result type) | ('err', exception name)"""
-    import types
+    """the REAL function on one sample -> ('ok', value of the result type) | ('err', exception name).
+    Record-typed arguments (self included) are real partitura objects (real_object)."""
     import partitura.score as S
     import partitura.utils.music as M
-
-    class Iv(object):
-        def __init__(self, n, q, d):
-            self.number, self.quality, self.direction = n, q, d
-        semitones = property(lambda self: S.Interval.semitones.fget(self))
 
     declared = ([("self", tgt.self_type)] if tgt.self_type else []) + list(tgt.params)
     objs = []
     for a, (p, ty) in zip(args, declared):
         if isinstance(ty, Rec):
-            if ty.name == "PyInterval":
-                objs.append(Iv(*a))
-            elif ty.name == "PySymDur":   # a dict; an absent key is the field None
+            if ty.name == "PySymDur":   # a dict; an absent key is the field None
                 objs.append({f: x for (f, _), x in zip(ty.fields, a) if x is not None})
             else:
-                objs.append(types.SimpleNamespace(**{f: x for (f, _), x in zip(ty.fields, a)}))
+                objs.append(real_object(S, ty, a))
         else:
             objs.append(a)
     try:
@@ -1672,7 +1695,7 @@ def tie(ctx, pid):
     if not ok:
         ctx.obligation(name, False, "%s:%s lemma %s\n%s" % (rel, line, lemma, "\n".join(log.splitlines()[-12:])))
         try:
-            diff = ctx.coq_failing("t1_vs_model", T1_IMPORTS, "", terms("spec"), "fun b : bool => b", shard=1500)
+            diff = ctx.coq_failing("t1_vs_model", T1_IMPORTS, "", terms("spec"), "fun b : bool => b", shard=1500, ty="bool")
         except RuntimeError as e:
             diff, ctx.extra["t1_search_error"] = [], str(e)[-800:]
         for i in diff[:3]:
@@ -1690,7 +1713,7 @@ def tie(ctx, pid):
     ctx.obligation(name, True)
     # the translator itself: translated definition = the running function on sampled arguments
     try:
-        bad = ctx.coq_failing("t1_vs_impl", T1_IMPORTS, "", terms("impl"), "fun b : bool => b", shard=1500)
+        bad = ctx.coq_failing("t1_vs_impl", T1_IMPORTS, "", terms("impl"), "fun b : bool => b", shard=1500, ty="bool")
         detail = bad[:5]
     except RuntimeError as e:
         bad, detail = [-1], str(e)[-800:]
